@@ -20,7 +20,7 @@ const (
 
 // steps that exist in both environments
 var commonSteps = []string{
-	"overwrite-put", "copy-onto", "copy-self-replace", "complete-mpu-onto",
+	"overwrite-put", "copy-onto", "copy-self-replace", "complete-mpu-onto", "complete-mpu-begun-earlier",
 	"delete", "delete-bypass", "delete-objects", "delete-objects-bypass", "delete-objects-alias-key", "delete-bucket",
 	"put-retention-shorter", "put-retention-shorter-bypass", "put-retention-downgrade", "put-retention-downgrade-bypass",
 	"put-retention-empty", "put-retention-empty-bypass", "put-retention-extend", "put-retention-upgrade", "put-retention-extend-zone-west", "put-retention-extend-zone-east", "put-retention-extend-zone-west-bypass", "put-retention-extend-zone-east-bypass",
@@ -42,7 +42,7 @@ var versionedSteps = []string{
 
 var unversionedSteps = []string{"delete-bogus-version", "delete-bogus-version-bypass"}
 
-var destructive = []string{"overwrite-put", "copy-onto", "complete-mpu-onto", "delete", "delete-bypass", "delete-vid", "delete-vid-bypass",
+var destructive = []string{"overwrite-put", "copy-onto", "complete-mpu-onto", "complete-mpu-begun-earlier", "delete", "delete-bypass", "delete-vid", "delete-vid-bypass",
 	"delete-objects", "delete-objects-bypass", "delete-objects-vid", "delete-objects-vid-bypass", "delete-objects-same-key-twice", "delete-objects-same-key-twice-bypass", "delete-top-version", "delete-bucket"}
 
 var enablers = []string{"put-lock-config-no-enabled", "put-lock-config-rule-only", "put-lock-config-enabled-no-rule", "put-lock-config-shorter-rule",
@@ -243,6 +243,22 @@ func (r *run) do(st step) stepLog {
 		}
 		pushTop(resp)
 		return finish("POST "+K+"?uploadId (one part)", resp)
+	case "complete-mpu-begun-earlier":
+		// the upload was initiated, and its part uploaded, before the key got its protection: the decision is due now
+		if r.early == nil {
+			return na("the early upload was completed or aborted already")
+		}
+		lg.Kind, lg.Targets = "overwrite", []target{{K, tgtVid}}
+		ea := r.early
+		resp := cl.CompleteMPU(b, K, ea.id, []s3c.Part{{N: 1, ETag: ea.etag}})
+		if resp.OK() && strings.Contains(string(resp.Body), "<Error>") {
+			resp.Status = 500
+		}
+		if resp.OK() {
+			r.early = nil
+		}
+		pushTop(resp)
+		return finish("POST "+K+"?uploadId=<initiated before the protection was set> (one part)", resp)
 	case "delete":
 		lg.Kind, lg.Targets = "delete", []target{{K, tgtVid}}
 		if useVid {
